@@ -449,9 +449,8 @@ Lemma equal_flags_length v row : length (equal_flags v row) = length row.
 Proof. unfold equal_flags. apply map_length. Qed.
 Lemma nth_equal_flags v row i : (i < length row)%nat ->
   nth i (equal_flags v row) 0 = if Qeq_bool (nth i row 0) v then 1 else 0.
-Proof. intros Hi. unfold equal_flags.
-  rewrite nth_indep with (d' := (fun x => if Qeq_bool x v then 1 else 0) 0) by (rewrite map_length; exact Hi).
-  rewrite map_nth. reflexivity. Qed.
+Proof. unfold equal_flags. revert i. induction row as [|x row IH]; intros [|i] Hi; cbn in *; try lia; auto.
+  apply IH. lia. Qed.
 
 Theorem missing_by_value L row v u : p_impute L = true -> p_missing_input L = Some v ->
   (u < p_units L)%nat -> (col_of (length row) u < length row)%nat ->
@@ -580,8 +579,7 @@ Lemma cat_row_unit L row u : (u < c_units L)%nat -> (col_of (length row) u < len
 Proof. intros Hu Hc H1. unfold cat_row, cat_index.
   assert (Hn : forall i, (i < length row)%nat ->
      nth i (map (fun x => replace_default L (cast_int x)) row) 0%Z = replace_default L (cast_int (nth i row 0))).
-  { intros i Hi. rewrite nth_indep with (d' := (fun x => replace_default L (cast_int x)) 0) by (rewrite map_length; exact Hi).
-    rewrite map_nth. reflexivity. }
+  { clear. induction row as [|x row IH]; intros [|i] Hi; cbn in *; try lia; auto. apply IH. lia. }
   destruct (c_units L =? 1)%nat eqn:E.
   - apply Nat.eqb_eq in E. assert (u = 0)%nat by lia. subst u. cbn [nth]. specialize (H1 E).
     unfold col_of. rewrite H1. cbn [Nat.eqb]. rewrite Hn by lia. reflexivity.
@@ -605,7 +603,8 @@ Proof. intros Hu Hc H1 Hd Hi Hb. rewrite cat_row_unit by assumption. unfold cat_
   unfold replace_default. rewrite Hd, Z.eqb_refl. rewrite dot_one_hot_in by lia.
   replace (Z.to_nat (Z.of_nat (c_buckets L) - 1)) with (c_buckets L - 1)%nat by lia. reflexivity. Qed.
 
-(* an index outside [0, num_buckets) that is not the default value yields 0 *)
+(* an index outside [0, num_buckets) that is not the default value yields 0
+   (outside the property's domain; not a property theorem and not generated by the tie) *)
 Theorem categorical_out_of_range L row u i : (u < c_units L)%nat -> (col_of (length row) u < length row)%nat ->
   (c_units L = 1%nat -> length row = 1%nat) ->
   cast_int (nth (col_of (length row) u) row 0) = i -> c_default L <> Some i ->
@@ -620,3 +619,110 @@ Proof. unfold cast_int. destruct (Qle_bool 0 (inject_Z z)); [apply Qfloor_Z|appl
 
 Lemma nth_column u (K : list (list Q)) : forall i, nth i (column u K) 0 = nth u (nth i K []) 0.
 Proof. induction K as [|r K IH]; intros [|i]; cbn; auto; destruct u; reflexivity. Qed.
+
+(* ---------------------------------------------------------------------- *)
+(* call(): accepted calls are the row function mapped over the batch       *)
+(* ---------------------------------------------------------------------- *)
+Lemma zip_opt_none xs : zip_opt xs None = map (fun x => (x, None)) xs.
+Proof. induction xs as [|x xs IH]; cbn; [reflexivity|]. rewrite IH. reflexivity. Qed.
+Lemma zip_opt_some xs : forall ms, length ms = length xs ->
+  map (fun xm => (fst xm, snd xm)) (zip_opt xs (Some ms)) = map2 (fun x m => (x, Some m)) xs ms.
+Proof. induction xs as [|x xs IH]; intros [|m ms] H; cbn in *; try lia; try reflexivity.
+  f_equal. apply IH. lia. Qed.
+
+Theorem pwl_call_tensor L as_list inputs :
+  let cols := length (hd [] inputs) in
+  all_len cols inputs = true -> (cols = p_units L \/ cols = 1%nat) ->
+  (if p_impute L then p_missing_input L <> None else as_list = false) ->
+  pwl_call L as_list inputs None = Some (split_result L (map (fun r => call_row L r None) inputs)).
+Proof. intros cols Hall Hc Hi. unfold pwl_call. fold cols. rewrite Hall. cbn [negb orb andb].
+  assert (Hcb : ((cols =? p_units L)%nat || (cols =? 1)%nat)%bool = true).
+  { destruct Hc as [-> | ->]; [rewrite Nat.eqb_refl; reflexivity|]. rewrite orb_true_r. reflexivity. }
+  rewrite Hcb. rewrite orb_false_r.
+  destruct (p_impute L) eqn:Ei.
+  - cbn [negb andb]. rewrite andb_false_r. cbn [orb andb negb].
+    destruct (p_missing_input L) eqn:Em; [|congruence]. cbn [andb].
+    rewrite zip_opt_none, map_map. reflexivity.
+  - subst as_list. cbn [negb andb orb]. rewrite zip_opt_none, map_map. reflexivity. Qed.
+
+Theorem pwl_call_flagged L inputs ms :
+  let cols := length (hd [] inputs) in
+  p_impute L = true -> length ms = length inputs -> all_len cols ms = true ->
+  all_len cols inputs = true -> (cols = p_units L \/ cols = 1%nat) ->
+  pwl_call L true inputs (Some ms) =
+  Some (split_result L (map2 (fun r m => call_row L r (Some m)) inputs ms)).
+Proof. intros cols Hi Hl Hms Hall Hc. unfold pwl_call. fold cols. rewrite Hi, Hall, Hms, Hl, Nat.eqb_refl.
+  assert (Hcb : ((cols =? p_units L)%nat || (cols =? 1)%nat)%bool = true).
+  { destruct Hc as [-> | ->]; [rewrite Nat.eqb_refl; reflexivity|]. rewrite orb_true_r. reflexivity. }
+  rewrite Hcb. cbn [negb andb orb]. f_equal. f_equal.
+  clear - Hl. revert ms Hl. induction inputs as [|x xs IH]; intros [|m ms] Hl; cbn in *; try lia; try reflexivity.
+  f_equal. apply IH. lia. Qed.
+
+(* split_outputs: output u is column u as a [batch, 1] matrix *)
+Theorem split_result_unit L res u : (1 < p_units L)%nat -> p_split L = true -> (u < p_units L)%nat ->
+  nth u (split_result L res) [] = map (fun r => [nth u r 0]) res.
+Proof. intros H1 Hs Hu. unfold split_result. apply Nat.ltb_lt in H1. rewrite H1, Hs. cbn [andb].
+  apply (nth_map_seq (fun u => map (fun r => [nth u r 0]) res) (p_units L) u [] Hu). Qed.
+Theorem split_result_off L res : ((1 <? p_units L)%nat && p_split L)%bool = false -> split_result L res = [res].
+Proof. intros H. unfold split_result. rewrite H. reflexivity. Qed.
+
+(* ---------------------------------------------------------------------- *)
+(* Non-vacuity: the hypotheses of the theorems are satisfiable             *)
+(* ---------------------------------------------------------------------- *)
+Example increasing_example : increasing [0; 1; 3; 7#2] /\ [0; 1; 3; 7#2] <> [].
+Proof. cbn. repeat split; try lra. discriminate. Qed.
+Example segments_example : segments [0; 1; 3] [1; 2; 1#2] (7#2).
+Proof. cbn. repeat split; lra. Qed.
+Example at_keypoints_example :
+  pwl_fn [0; 1; 3] [1; 2; 1#2] [1#2; 1; -(2); 4] 3 == (1#2) + qsum (firstn 2 [1; -(2); 4]).
+Proof. apply (pwl_at_keypoints _ _ (7#2)); [exact segments_example|reflexivity|cbn; lia|reflexivity]. Qed.
+Definition example_col : list Q := [1#2; 1; 0; 4].
+Example monotone_hyp_example :
+  forall j, (S j < length example_col)%nat -> nth j (kp_outs example_col) 0 <= nth (S j) (kp_outs example_col) 0.
+Proof. intros [|[|[|j]]] H; cbn in *; try lia; lra. Qed.
+Example bounded_hyp_example : forall y, In y (kp_outs [1#2; 1; -(2); 4]) -> -(1) <= y <= 4.
+Proof. unfold kp_outs. cbn [cumsum_incl In]. intros y H.
+  repeat (destruct H as [<-|H]; [split; lra|]). destruct H. Qed.
+
+(* a softmax-like function meeting the three oracle hypotheses exists: uniform weights *)
+Definition uniform_sm (l : list Q) : list Q := map (fun _ => 1 / inject_Z (Z.of_nat (length l))) l.
+Lemma qsum_const {A} (l : list A) c : qsum (map (fun _ => c) l) == inject_Z (Z.of_nat (length l)) * c.
+Proof. induction l as [|a l IH]; cbn [map qsum length].
+  - change (inject_Z (Z.of_nat 0)) with 0. lra.
+  - rewrite IH. rewrite Nat2Z.inj_succ. unfold Z.succ. rewrite inject_Z_plus.
+    change (inject_Z 1) with 1. lra. Qed.
+Example softmax_oracle_satisfiable :
+  (forall l, length (uniform_sm l) = length l) /\
+  (forall l s, In s (uniform_sm l) -> 0 < s) /\
+  (forall l, l <> [] -> qsum (uniform_sm l) == 1).
+Proof. unfold uniform_sm. split; [intros; apply map_length|].
+  assert (Hpos : forall l : list Q, l <> [] -> 0 < inject_Z (Z.of_nat (length l))).
+  { intros l Hl. destruct l; [congruence|]. cbn [length]. rewrite <- (Zlt_Qlt 0). lia. }
+  split.
+  - intros l s Hs. apply in_map_iff in Hs. destruct Hs as [x [<- Hx]].
+    assert (Hl : l <> []) by (destruct l; [destruct Hx|discriminate]).
+    apply Qlt_shift_div_l; [apply Hpos; exact Hl|]. lra.
+  - intros l Hl. rewrite qsum_const. specialize (Hpos l Hl).
+    set (n := inject_Z (Z.of_nat (length l))) in *. field. intro E. rewrite E in Hpos. lra. Qed.
+
+(* a concrete cyclic two-unit layer with imputation meeting the layer-level hypotheses *)
+Definition example_layer : pwl_layer :=
+  build_fixed 2 [0; 1; 3; 7#2] true [[1#2; 0]; [1; 2]; [-(2); 1]] true (Some (-(1))) None [5; 6] true.
+Example layer_hyp_example :
+  p_cyclic example_layer = true /\ p_impute example_layer = true /\
+  segments (unit_lefts example_layer 1) (unit_lens example_layer 1) (7#2) /\
+  length (unit_lefts example_layer 1) = length (p_kernel example_layer) /\
+  unit_lefts example_layer 1 <> [] /\
+  length (column 1 (bias_and_heights example_layer)) = S (length (unit_lefts example_layer 1)).
+Proof. cbn. repeat split; try lra; discriminate. Qed.
+Example layer_call_example :
+  option_map (map (map (map Qred))) (pwl_call example_layer false [[1#2]; [-(1)]; [7#2]] None) =
+  Some [[[1]; [5]; [1#2]]; [[1]; [6]; [0]]].
+Proof. vm_compute. reflexivity. Qed.
+
+Definition example_cat : cat_layer := mkCat 3 2 [[1; 2]; [3; 4]; [5; 6]] (Some (-1)%Z) false.
+Example cat_hyp_example :
+  cast_int (nth (col_of 1 1) [1] 0) = 1%Z /\ c_default example_cat <> Some 1%Z /\
+  (0 <= 1 < Z.of_nat (c_buckets example_cat))%Z /\ cast_int (-(1)) = (-1)%Z /\
+  map (map (map Qred)) (cat_call example_cat [[1]; [-(1)]; [5#2]]) = [[[3; 4]; [5; 6]; [5; 6]]].
+Proof. vm_compute. repeat split; congruence. Qed.
